@@ -194,6 +194,8 @@ def insert_entry_interval(O, ents, m, M, new, mode, reporting):
     the new one, 'merge' replaces them by one entry covering their joint extent whose label joins all labels with
     '-' in time order.  Afterwards the tier is in time order and its span has grown just enough."""
     ns, ne, nl = new
+    if mode not in ("error", "replace", "merge") or reporting not in ("silence", "warning", "error"):
+        O.raise_("ANY")  # an invalid option is rejected with a praatio error (and, C13, nothing is changed)
     if O.ge(ns, ne):
         # C05: an operation that cannot produce a well-formed tier raises a praatio error
         O.raise_("ANY")
@@ -216,6 +218,8 @@ def insert_entry_interval(O, ents, m, M, new, mode, reporting):
 def insert_entry_point(O, ents, m, M, new, mode, reporting):
     """C11: collision = a point at the same time; merge label is 'old-new'."""
     nt, nl = new
+    if mode not in ("error", "replace", "merge") or reporting not in ("silence", "warning", "error"):
+        O.raise_("ANY")  # an invalid option is rejected with a praatio error (and, C13, nothing is changed)
     hit = [x for x in ents if O.eq(x[0], nt)]
     rest = [x for x in ents if x not in hit]
     if hit and mode == "error":
